@@ -103,6 +103,10 @@ func init() {
 			fr.i.x.abort(AbortStop, "vStop")
 			return nil
 		},
+		"vSetIdleHook": func(fr *frame, a []value) value {
+			fr.i.x.idleHook = a[0]
+			return nil
+		},
 		"vIsEngine": func(fr *frame, a []value) value { return true },
 		"vNumSpawned": func(fr *frame, a []value) value {
 			return len(fr.i.x.spawned)
@@ -137,6 +141,19 @@ func init() {
 				return mkVal(cx.Ite(c.t, termOf(cx, a[1]), termOf(cx, a[2])), types.Uint64)
 			}
 			panic("vIte64")
+		},
+		"vIte8": func(fr *frame, a []value) value {
+			switch c := a[0].(type) {
+			case bool:
+				if c {
+					return a[1]
+				}
+				return a[2]
+			case sym:
+				cx := c.t.C
+				return mkVal(cx.Ite(c.t, termOf(cx, a[1]), termOf(cx, a[2])), types.Uint8)
+			}
+			panic("vIte8")
 		},
 		"vIsSymbolic": func(fr *frame, a []value) value { return isSym(a[0]) },
 		"vChanPending": func(fr *frame, a []value) value {
@@ -199,8 +216,26 @@ func init() {
 	externals["internal/stringslite.HasSuffix"] = nil
 	delete(externals, "internal/stringslite.HasSuffix")
 
+	externals["(*strings.Builder).String"] = func(fr *frame, a []value) value {
+		st := (*a[0].(*value)).(structure)
+		b, _ := st[1].([]value)
+		return mkString(b)
+	}
 	// formatting: opaque results (formatting is never the subject except where a harness models it)
-	externals["fmt.Sprintf"] = func(fr *frame, a []value) value { return "fmt.Sprintf(" + fmtArg(a[0]) + ")" }
+	externals["fmt.Sprintf"] = func(fr *frame, a []value) value {
+		// %T is modelled exactly (the dynamic type name is what encodeTaskResp puts on the wire); everything else is opaque
+		if f, ok := a[0].(string); ok && f == "%T" {
+			if args, ok := a[1].([]value); ok && len(args) == 1 {
+				if it, ok := args[0].(iface); ok {
+					if it.t == nil {
+						return "<nil>"
+					}
+					return types.TypeString(it.t, func(p *types.Package) string { return p.Name() })
+				}
+			}
+		}
+		return "fmt.Sprintf(" + fmtArg(a[0]) + ")"
+	}
 	externals["fmt.Sprint"] = func(fr *frame, a []value) value { return "fmt.Sprint" }
 	externals["fmt.Sprintln"] = func(fr *frame, a []value) value { return "fmt.Sprintln" }
 	externals["fmt.Errorf"] = func(fr *frame, a []value) value {
@@ -238,6 +273,14 @@ func init() {
 			ex.assume(c.SLt(ts.t, c.BV(1<<60, 64)))
 		}
 		return structure{uint64(0), t, (*value)(nil)}
+	}
+	// contract pair used by the Replication codec: Unix(0, UnixNano(t)) is the instant t
+	externals["(time.Time).UnixNano"] = func(fr *frame, a []value) value { return a[0].(structure)[1] }
+	externals["time.Unix"] = func(fr *frame, a []value) value {
+		if sec, ok := a[0].(int64); !ok || sec != 0 {
+			fr.i.x.abort(AbortUnmodelled, "time.Unix with non-zero seconds")
+		}
+		return structure{uint64(0), a[1], (*value)(nil)}
 	}
 	externals["time.Since"] = func(fr *frame, a []value) value { return fr.i.x.newSym("time.since", types.Int64) }
 	externals["time.Sleep"] = nop
